@@ -169,14 +169,6 @@ theorem counting {s : St} (h : Reach s) (x : Side) (r : Nat) :
   have := d.count r
   exact ⟨by omega, d.once r⟩
 
-/-- what the property demands of a state: both sides are still serving, and every request sent is in
-exactly one place — in the peer's inbox, being handled on the peer's stack, or answered exactly once -/
-structure Good (s : St) : Prop where
-  open_a : s.a.dead = false
-  open_b : s.b.dead = false
-  one : ∀ x r, r ∈ (s.get x).issued →
-    nReq r (s.get x.peer).inbox + nHand r (s.get x.peer).stack + nKey r (s.get x.peer).answered = 1
-
 /-- **The full property**: after every event sequence, with every handler outcome. -/
 def C08_statement : Prop :=
   ∀ (sa sb : Nat) (es : List Ev) (s : St), run (St.init sa sb) es = some s → Good s
